@@ -19,29 +19,29 @@ Definition nc_k : namconv := mknc (Str "K") true true true 1 (Str ".") true.
 Definition nc_none : namconv := mknc [] true true true 1 (Str ".") true.
 (* kriging(dbin, dbout, model, neigh) with estimation and st. dev., monovariate 2-D model *)
 Definition cfg_kriging : cfg :=
-  mkcfg nc_k true true false (-1) false false 0 0 0 false 5 0 1 2 2 0 true [] false (-1) 1 0 0 true.
+  mkcfg nc_k true true false (-1) false false 0 0 0 false 5 0 1 2 2 0 true [] false (-1) 1 0 0 true true 0.
 (* krigtest(dbin, dbout, model, neigh, iech0 = 0) *)
 Definition cfg_krigtest : cfg :=
-  mkcfg nc_none true true false 0 false false 0 0 0 false 5 0 1 2 2 0 true [] false (-1) 1 0 0 true.
+  mkcfg nc_none true true false 0 false false 0 0 0 false 5 0 1 2 2 0 true [] false (-1) 1 0 0 true true 0.
 (* kriging(..., EKrigOpt::DGM) *)
 Definition cfg_dgm : cfg :=
-  mkcfg nc_k true true false (-1) true false 0 0 0 false 5 0 1 2 2 0 true [] false (-1) 1 0 0 true.
+  mkcfg nc_k true true false (-1) true false 0 0 0 false 5 0 1 2 2 0 true [] false (-1) 1 0 0 true true 0.
 (* RawToGaussian on dbin *)
 Definition cfg_anam : cfg :=
-  mkcfg (mknc (Str "Y") true true true 1 (Str ".") true) false false false (-1) false false 0 0 0 false 5 0 1 2 2 0 true [] false (-1) 1 0 0 true.
+  mkcfg (mknc (Str "Y") true true true 1 (Str ".") true) false false false (-1) false false 0 0 0 false 5 0 1 2 2 0 true [] false (-1) 1 0 0 true true 0.
 (* conditional turning bands, 2 simulations *)
 Definition cfg_simtub : cfg :=
-  mkcfg (mknc (Str "Simu") true true true 1 (Str ".") true) false false false (-1) false false 0 0 0 false 5 0 1 2 2 0 true [] false (-1) 2 0 0 true.
+  mkcfg (mknc (Str "Simu") true true true 1 (Str ".") true) false false false (-1) false false 0 0 0 false 5 0 1 2 2 0 true [] false (-1) 2 0 0 true true 0.
 (* dbg2gShrink *)
 Definition cfg_shrink : cfg :=
-  mkcfg (mknc (Str "G2G") true true true 1 (Str ".") true) false false false (-1) false false 0 0 0 false 5 0 1 2 2 0 true [] false (-1) 1 1 0 true.
+  mkcfg (mknc (Str "G2G") true true true 1 (Str ".") true) false false false (-1) false false 0 0 0 false 5 0 1 2 2 0 true [] false (-1) 1 1 0 true true 0.
 Definition w_names_after_kriging : list str := [Str "rank"; Str "x1"; Str "x2"; Str "old"; Str "K.z.estim"; Str "K.z.stdev"].
 (* a grid carrying one external drift variable (locator F = 3), and kriging with a model asking for one external drift *)
 Definition w_dout_f : db :=
   mkdb [mkcol 0 (Str "rank") (Orig 0); mkcol 1 (Str "x1") (Orig 1); mkcol 2 (Str "x2") (Orig 2); mkcol 3 (Str "drift") (Orig 3)]
        4 ([1; 2] :: [] :: [] :: [3] :: repeat [] 25) true 2.
 Definition cfg_extdrift : cfg :=
-  mkcfg nc_k true true false (-1) false false 0 0 0 false 5 0 1 2 2 1 true [] false (-1) 1 0 0 true.
+  mkcfg nc_k true true false (-1) false false 0 0 0 false 5 0 1 2 2 1 true [] false (-1) 1 0 0 true true 0.
 
 (* failure at every point of check / preprocess (after 0..9 operations) / run: reported, and both Dbs restored *)
 Definition sweep_atomic (c : calc) (din dout : db) : bool :=
@@ -50,10 +50,10 @@ Definition sweep_atomic (c : calc) (din dout : db) : bool :=
      negb ok && db_eqb (s_in s) din && db_eqb (s_out s) dout) (seq 0 10)) [1; 2; 3].
 (* conditional turning bands with DGM *)
 Definition cfg_simtub_dgm : cfg :=
-  mkcfg (mknc (Str "Simu") true true true 1 (Str ".") true) false false false (-1) true false 0 0 0 false 5 0 1 2 2 0 true [] false (-1) 2 0 0 true.
+  mkcfg (mknc (Str "Simu") true true true 1 (Str ".") true) false false false (-1) true false 0 0 0 false 5 0 1 2 2 0 true [] false (-1) 2 0 0 true true 0.
 (* krigtest with DGM *)
 Definition cfg_krigtest_dgm : cfg :=
-  mkcfg nc_none true true false 0 true false 0 0 0 false 5 0 1 2 2 0 true [] false (-1) 1 0 0 true.
+  mkcfg nc_none true true false 0 true false 0 0 0 false 5 0 1 2 2 0 true [] false (-1) 1 0 0 true true 0.
 (* dbin without variable *)
 Definition w_din_noz : db :=
   mkdb [mkcol 0 (Str "rank") (Orig 0); mkcol 1 (Str "x1") (Orig 1); mkcol 2 (Str "x2") (Orig 2)] 3 (locs_of [1; 2] []) false 0.
@@ -64,7 +64,7 @@ Definition w_dout_simu : db :=
         mkcol 3 (Str "S.1") (Orig 3); mkcol 4 (Str "S.2") (Orig 4)]
        5 ([1; 2] :: repeat [] 21 ++ [[3; 4]] ++ repeat [] 6) true 2.
 Definition cfg_simfft : cfg :=
-  mkcfg (mknc (Str "FFT") true true true 1 (Str ".") true) false false false (-1) false false 0 0 0 false 5 0 1 2 0 0 true [] false (-1) 1 0 0 false.
+  mkcfg (mknc (Str "FFT") true true true 1 (Str ".") true) false false false (-1) false false 0 0 0 false 5 0 1 2 0 0 true [] false (-1) 1 0 0 false true 0.
 Definition kriging_no_z_outcome : Z * bool :=
   (failing_stage (kriging cfg_kriging true) (init_st w_din_noz w_dout false) 0 0%nat,
    fst (calc_run (kriging cfg_kriging true) (init_st w_din_noz w_dout false) 0 0%nat)).
